@@ -255,6 +255,33 @@ fn check_case_inner(o: &mut CompOutcome, c: &Case, light: bool) {
             format!("incoming {:?} outgoing {:?} matched {:?}: maximal_committed_index = {}, brute force = {}", c.incoming, c.outgoing, acks_present, got_t, want_t),
         );
     }
+    // ... and with the tracker's own group-commit switch on (the path the leader really takes)
+    tr.enable_group_commit(true);
+    let (gt, _) = tr.maximal_committed_index();
+    tr.enable_group_commit(false);
+    o.ops += 1;
+    if gt > want_t {
+        o.violation(
+            "C11",
+            "group-commit-bound",
+            "tracker-group-commit-exceeds-quorum-index",
+            format!("incoming {:?} outgoing {:?} matched {:?}: maximal_committed_index with group commit = {} > quorum index {}", c.incoming, c.outgoing, acks_present, gt, want_t),
+        );
+    }
+    if let (Some(a), Some(b)) = (oracle_group_commit(&c.incoming, &acks_present), oracle_group_commit(&c.outgoing, &acks_present)) {
+        o.stats.inc("c11.tracker_group_commit_exact_cases");
+        if gt != a.min(b) {
+            o.violation(
+                "C11",
+                "group-commit-exact",
+                "tracker-group-commit-wrong",
+                format!(
+                    "incoming {:?} outgoing {:?} matched {:?}: maximal_committed_index with group commit = {}, the largest index replicated into two groups of each half is {}",
+                    c.incoming, c.outgoing, acks_present, gt, a.min(b)
+                ),
+            );
+        }
+    }
     // votes
     let want_v = joint_vote(oracle_vote(&c.incoming, &c.votes), oracle_vote(&c.outgoing, &c.votes));
     let got_v = vr_of(tr.conf().voters().vote_result(|id| c.votes.get(&id).cloned()));
